@@ -26,13 +26,13 @@ m = {
     "setup_cmd": "./setup.sh",
     "hooks": {
         "guard": "verif",
-        "enable": "go build -tags verif (harness module /verif with `replace github.com/crate-crypto/go-ipa => /repo`); flavours: -race, -tags verif,noadx",
+        "enable": "go build -tags verif (harness module /verif with `replace github.com/crate-crypto/go-ipa => /repo`); flavours: -race, -tags verif,noadx, GOARCH=386",
         "baseline_off_cmd": "cd /repo && GOFLAGS=-mod=mod GOPROXY=off GOSUMDB=off GOTOOLCHAIN=local go test -vet=off -count=1 -timeout 25m ./...",
         "source_commits": ["57366c4", "a4f5fcf", "248af53"],
         "add_only": True,
     },
     "engines": [{"name": "vmon", "path": "/verif/cmd/vmon", "serves_properties": sorted(impl.keys()),
-                 "kind_free_text": "runtime monitoring: driver spawning child processes of the real code (plain / race detector / noadx builds, taskset CPU counts, GOMAXPROCS, schedule-perturbation hooks) with reference-model oracles (independent big.Int implementation in /verif/ref), trace monitors, fingerprints and the Go race/deadlock detectors"}],
+                 "kind_free_text": "runtime monitoring: driver spawning child processes of the real code (plain / race detector / noadx / 32-bit (GOARCH=386) builds, taskset CPU counts, GOMAXPROCS, schedule-perturbation hooks) with reference-model oracles (independent big.Int implementation in /verif/ref), trace monitors, fingerprints, read-only memory pages as a hardware write monitor, and the Go race/deadlock detectors"}],
     "checks": checks,
     "not_applicable": na,
     "notes": "exit 0 held / 1 violation / 2 harness error or inconclusive. VERIF_SEED selects the seed. Genuine defects repaired by fix: commits are listed in KNOWN_FINDINGS.txt.",
